@@ -2,7 +2,8 @@
 
     [generateType] / [generateTypeDef] / [processQuery] / [Generate], producing the abstract Go
     declarations of [GoTypes.v] instead of source text.  The code modelled is the repaired tree
-    (fix: commits for DESIGN.md section 6 rows 27, 28, 29 and for union type conditions); the
+    (fix: commits for DESIGN.md section 6 rows 27, 28, 29, for union type conditions and for
+    response keys selected more than once); the
     behaviour before each repair is kept behind the flags of [quirks] so that the defects remain
     available as refutation witnesses.
 
@@ -185,10 +186,12 @@ Record quirks := {
   q_overwrite_inline : bool;    (* row 27: every inline fragment generated on its own, last one wins *)
   q_fixed_typename : bool;      (* row 28: the switch always reads base.Typename__ *)
   q_nil_cond_panics : bool;     (* row 29: inline fragment without type condition dereferences nil *)
-  q_no_union_cond : bool        (* union type conditions: never known, never expanded *)
+  q_no_union_cond : bool;       (* union type conditions: never known, never expanded *)
+  q_no_field_merge : bool       (* a response key selected more than once: every selection generated on its own, last one wins *)
 }.
 Definition no_quirks : quirks :=
-  {| q_overwrite_inline := false; q_fixed_typename := false; q_nil_cond_panics := false; q_no_union_cond := false |}.
+  {| q_overwrite_inline := false; q_fixed_typename := false; q_nil_cond_panics := false; q_no_union_cond := false;
+     q_no_field_merge := false |}.
 
 Section Gen.
   Variable Q : quirks.
@@ -238,9 +241,16 @@ Section Gen.
                        | _ => []
                        end) all.
 
-  (** loop state: [fields], [typeConditions], [inlineFragmentTypes], generator state *)
+  (** sub-selections of all field selections of [all] whose response key is [k] *)
+  Definition merged_field (k : name) (all : list selection) : list selection :=
+    flat_map (fun o => match o with
+                       | SField a f sub => if bytes_eqb (sel_key a f) k then sub else []
+                       | _ => []
+                       end) all.
+
+  (** loop state: [fields], [typeConditions], [inlineFragmentTypes], [fieldKeys], generator state *)
   Definition acc : Type :=
-    (list (name * (gotype * bool)) * list (name * list name) * list name * gstate)%type.
+    (list (name * (gotype * bool)) * list (name * list name) * list name * list name * gstate)%type.
 
   Definition named_exists (n : name) : bool :=
     match builtin_of n with
@@ -250,13 +260,13 @@ Section Gen.
 
   Definition step (rec : rec_t) (tName : name) (d : typedef) (hasTn : bool) (all : list selection)
              (sel : selection) (a : acc) : outcome acc :=
-    let '(fields, conds, done, st) := a in
+    let '(fields, conds, done, fdone, st) := a in
     match sel with
     | SSpread f _ _ =>
         if negb hasTn && negb (is_object d) then Err
         else
           let tc := match assoc f fragTypes with Some c => c | None => [] end in
-          Ok (aset f (GPtr (GFragRef f), true) fields, aappend tc f conds, done, st)
+          Ok (aset f (GPtr (GFragRef f), true) fields, aappend tc f conds, done, fdone, st)
     | SInline c sub =>
         if negb hasTn && negb (is_object d) then Err
         else if match c with
@@ -269,24 +279,27 @@ Section Gen.
           else
             let merged := if q_overwrite_inline Q then sub else merged_inline tName cond all in
             match gen_type rec (TNamed cond) merged st with
-            | Ok (g, st') => Ok (aset cond (g, true) fields, aappend cond cond conds, cond :: done, st')
+            | Ok (g, st') => Ok (aset cond (g, true) fields, aappend cond cond conds, cond :: done, fdone, st')
             | Err => Err | Panic => Panic | OutOfFuel => OutOfFuel
             end
     | SField al f sub =>
         let k := sel_key al f in
-        if is_typename f then Ok (aset k (GString, false) fields, conds, done, st)
+        if negb (q_no_field_merge Q) && mem k fdone then Ok a     (* generated with the first selection of this key *)
+        else
+        let merged := if q_no_field_merge Q then sub else merged_field k all in
+        if is_typename f then Ok (aset k (GString, false) fields, conds, done, k :: fdone, st)
         else
           match d with
           | DObj _ _ fs | DIface _ fs =>
               match assoc f fs with
               | None => Panic                          (* t.Fields[name] is nil *)
               | Some ft =>
-                  match gen_type rec ft sub st with
-                  | Ok (g, st') => Ok (aset k (g, false) fields, conds, done, st')
+                  match gen_type rec ft merged st with
+                  | Ok (g, st') => Ok (aset k (g, false) fields, conds, done, k :: fdone, st')
                   | Err => Err | Panic => Panic | OutOfFuel => OutOfFuel
                   end
               end
-          | _ => Ok a                                  (* union: the inner switch has no case *)
+          | _ => Ok (fields, conds, done, k :: fdone, st)   (* union: the inner switch has no case *)
           end
     end.
 
@@ -344,8 +357,8 @@ Section Gen.
     let hasTn := match ft with Some _ => true | None => false end in
     let tnKey := if q_fixed_typename Q then typename_name
                  else match ft with Some k => k | None => typename_name end in
-    match loop rec n d hasTn sels sels ([], [], [], st) with
-    | Ok (fields, conds, _, st1) =>
+    match loop rec n d hasTn sels sels ([], [], [], [], st) with
+    | Ok (fields, conds, _, _, st1) =>
         let fs := sort_fields (map mk_field fields) in
         match conds with
         | [] => Ok (GStruct fs, true, st1)
